@@ -121,6 +121,8 @@ type e2eRec struct {
 	Allowed   []string `json:"allowed"` // keys that may change or disappear as a side effect (table counters)
 	Logical   []string `json:"logical"` // API-level failures, empty = fine
 	Members   []string `json:"members"` // members of the first target before the op
+	Partial   bool     `json:"partial"`  // a sub-key level operation: only the selected members' keys may go
+	SelOwned  []string `json:"selowned"` // engine keys owned by the selected members
 	Err       string   `json:"err"`
 }
 
@@ -130,7 +132,9 @@ type e2e struct {
 	policy string
 	ts     int64
 	owned  map[collID]map[string]bool
-	alive  map[collID][][]byte // current members
+	mowned map[collID]map[string]map[string]bool // engine keys owned by one member of a hash/set/zset
+	score  map[collID]map[string]float64         // zset member -> score
+	alive  map[collID][][]byte                   // current members
 	order  []collID
 }
 
@@ -176,18 +180,37 @@ func (e *e2e) populate(c collID, members [][]byte) error {
 		err = e.db.KVSet(e.tick(), raw, append([]byte("v-"), members[0]...))
 	case "hash":
 		for _, m := range members {
+			b0 := e.dump()
 			if _, err = e.db.HSet(e.tick(), false, raw, m, append([]byte("v"), m...)); err != nil {
 				break
 			}
+			e.noteMember(c, m, b0)
 		}
 	case "set":
-		_, err = e.db.SAdd(e.tick(), raw, members...)
-	case "zset":
-		ps := make([]common.ScorePair, len(members))
-		for i, m := range members {
-			ps[i] = common.ScorePair{Score: float64(i%3) - 1, Member: m}
+		for _, m := range members {
+			b0 := e.dump()
+			if _, err = e.db.SAdd(e.tick(), raw, m); err != nil {
+				break
+			}
+			e.noteMember(c, m, b0)
 		}
-		_, err = e.db.ZAdd(e.tick(), raw, ps...)
+	case "zset":
+		if e.score[c] == nil {
+			e.score[c] = map[string]float64{}
+		}
+		scs := []float64{-2.5, -1, 0, 1, 1, 3e10, math.Inf(-1), math.Inf(1), -1e-300}
+		for i, m := range members {
+			sc := scs[(i+len(members))%len(scs)]
+			if string(m) == "fresh" {
+				sc = -1
+			}
+			b0 := e.dump()
+			if _, err = e.db.ZAdd(e.tick(), raw, common.ScorePair{Score: sc, Member: m}); err != nil {
+				break
+			}
+			e.score[c][string(m)] = sc
+			e.noteMember(c, m, b0)
+		}
 	case "list":
 		_, err = e.db.RPush(e.tick(), raw, members...)
 	case "bitmap":
@@ -212,6 +235,20 @@ func (e *e2e) populate(c collID, members [][]byte) error {
 	}
 	e.alive[c] = members
 	return nil
+}
+
+// noteMember: the element keys that appeared when one member was added belong to that member
+func (e *e2e) noteMember(c collID, m []byte, before map[string]string) {
+	if e.mowned[c] == nil {
+		e.mowned[c] = map[string]map[string]bool{}
+	}
+	mm := map[string]bool{}
+	for k := range e.dump() {
+		if _, ok := before[k]; !ok && !isTableCounter(k) && !isMetaKey(k) {
+			mm[k] = true
+		}
+	}
+	e.mowned[c][string(m)] = mm
 }
 
 func isTableCounter(k string) bool { return len(k) > 0 && (k[0] == rr.TableMetaType) }
@@ -352,7 +389,8 @@ func scenario(seed int64, policy string, idx int, emit func(e2eRec)) {
 		return
 	}
 	defer db.Close()
-	e := &e2e{db: db, r: r, policy: policy, ts: 1700000000000000000, owned: map[collID]map[string]bool{}, alive: map[collID][][]byte{}}
+	e := &e2e{db: db, r: r, policy: policy, ts: 1700000000000000000, owned: map[collID]map[string]bool{}, alive: map[collID][][]byte{},
+		mowned: map[collID]map[string]map[string]bool{}, score: map[collID]map[string]float64{}}
 
 	// population: 2 tables x 3 keys x all types; members from the pool, the empty member in most collections
 	tabs := [][]byte{tablePool[r.Pick(len(tablePool))], tablePool[r.Pick(len(tablePool))]}
@@ -434,6 +472,11 @@ func scenario(seed int64, policy string, idx int, emit func(e2eRec)) {
 		if (c.Typ == "hash" || c.Typ == "set" || c.Typ == "zset") && r.Chance(0.15) {
 			e.rejectedWrite(c, op, &rec, before, logBefore, emit)
 			continue
+		}
+		if (c.Typ == "hash" || c.Typ == "set" || c.Typ == "zset") && len(e.alive[c]) >= 2 && r.Chance(0.4) {
+			if e.partialRemove(c, &rec, before, logBefore, emit) {
+				continue
+			}
 		}
 		switch {
 		case wholeTable:
@@ -571,6 +614,8 @@ func scenario(seed int64, policy string, idx int, emit func(e2eRec)) {
 				}
 			}
 			e.alive[t] = nil
+			delete(e.mowned, t)
+			delete(e.score, t)
 		}
 		fresh := [][]byte{[]byte("fresh")}
 		t0 := targets[0]
@@ -585,6 +630,179 @@ func scenario(seed int64, policy string, idx int, emit func(e2eRec)) {
 		}
 		emit(rec)
 	}
+}
+
+// expected API-level content of a hash/set/zset from the harness's own book-keeping
+func (e *e2e) expectLogical(c collID, members [][]byte) string {
+	var p []string
+	switch c.Typ {
+	case "hash":
+		for _, m := range members {
+			p = append(p, H(m)+"="+H(append([]byte("v"), m...)))
+		}
+		sort.Strings(p)
+	case "set":
+		for _, m := range members {
+			p = append(p, H(m))
+		}
+		sort.Strings(p)
+	case "zset":
+		ms := append([][]byte{}, members...)
+		sc := e.score[c]
+		sort.Slice(ms, func(a, b int) bool {
+			sa, sb := sc[string(ms[a])], sc[string(ms[b])]
+			if sa != sb {
+				return sa < sb
+			}
+			return string(ms[a]) < string(ms[b])
+		})
+		for _, m := range ms {
+			p = append(p, fmt.Sprintf("%s@%x", H(m), math.Float64bits(sc[string(m)])))
+		}
+	}
+	return strings.Join(p, ",")
+}
+
+// partialRemove: a sub-key level removal (HDEL / SREM / ZREM / ZREMRANGEBYSCORE / ZREMRANGEBYRANK over a
+// part of the collection): exactly the engine keys of the selected members disappear, only the meta record
+// of the collection may change. Returns false if no proper part could be selected.
+func (e *e2e) partialRemove(c collID, rec *e2eRec, before map[string]string, logBefore map[collID]string, emit func(e2eRec)) bool {
+	members := e.alive[c]
+	for _, m := range members {
+		if e.mowned[c] == nil || e.mowned[c][string(m)] == nil {
+			return false
+		}
+	}
+	raw := c.raw()
+	r := e.r
+	sel := map[string]bool{}
+	var opErr error
+	kind := 0
+	if c.Typ == "zset" {
+		kind = r.Pick(3)
+	}
+	switch kind {
+	case 0: // explicit members (+ one that does not exist)
+		var args [][]byte
+		for _, m := range members {
+			if r.Chance(0.5) && len(sel) < len(members)-1 {
+				sel[string(m)] = true
+				args = append(args, m)
+			}
+		}
+		if len(sel) == 0 {
+			sel[string(members[0])] = true
+			args = append(args, members[0])
+		}
+		args = append(args, []byte("no-such-member"))
+		switch c.Typ {
+		case "hash":
+			rec.Op = "HDel(part)"
+			_, opErr = e.db.HDel(e.tick(), raw, args...)
+		case "set":
+			rec.Op = "SRem(part)"
+			_, opErr = e.db.SRem(e.tick(), raw, args...)
+		case "zset":
+			rec.Op = "ZRem(part)"
+			_, opErr = e.db.ZRem(e.tick(), raw, args...)
+		}
+	case 1: // by score interval
+		bounds := [][2]float64{{-1, -1}, {-3, 0}, {0, 1}, {0.5, math.Inf(1)}, {math.Inf(-1), -1}, {-1e-300, 0}, {1, 3e10}}
+		b := bounds[r.Pick(len(bounds))]
+		for _, m := range members {
+			if sc := e.score[c][string(m)]; sc >= b[0] && sc <= b[1] {
+				sel[string(m)] = true
+			}
+		}
+		if len(sel) == 0 || len(sel) == len(members) {
+			return false
+		}
+		rec.Op = fmt.Sprintf("ZRemRangeByScore(%v,%v)", b[0], b[1])
+		_, opErr = e.db.ZRemRangeByScore(e.tick(), raw, b[0], b[1])
+	case 2: // by rank interval
+		ms := append([][]byte{}, members...)
+		sc := e.score[c]
+		sort.Slice(ms, func(a, b int) bool {
+			sa, sb := sc[string(ms[a])], sc[string(ms[b])]
+			if sa != sb {
+				return sa < sb
+			}
+			return string(ms[a]) < string(ms[b])
+		})
+		start := r.Pick(len(ms))
+		stop := start + r.Pick(len(ms)-start)
+		if start == 0 && stop == len(ms)-1 {
+			return false
+		}
+		for i := start; i <= stop; i++ {
+			sel[string(ms[i])] = true
+		}
+		rec.Op = fmt.Sprintf("ZRemRangeByRank(%d,%d)", start, stop)
+		_, opErr = e.db.ZRemRangeByRank(e.tick(), raw, start, stop)
+	}
+	if opErr != nil {
+		rec.Err = opErr.Error()
+	}
+	rec.Partial = true
+	rec.Targets = []string{c.String()}
+	selOwned := map[string]bool{}
+	var rest [][]byte
+	for _, m := range members {
+		if sel[string(m)] {
+			for k := range e.mowned[c][string(m)] {
+				selOwned[k] = true
+			}
+		} else {
+			rest = append(rest, m)
+		}
+	}
+	rec.SelOwned = sortedHex(selOwned)
+	metaOwned := map[string]bool{}
+	for k := range e.owned[c] {
+		if isMetaKey(k) {
+			metaOwned[k] = true
+		}
+	}
+	rec.MetaOwned = sortedHex(metaOwned)
+	after := e.dump()
+	removed, added := map[string]bool{}, map[string]bool{}
+	for k, v := range before {
+		nv, ok := after[k]
+		if !ok {
+			if !isTableCounter(k) {
+				removed[k] = true
+			}
+		} else if nv != v && !isTableCounter(k) {
+			rec.Changed = append(rec.Changed, H([]byte(k)))
+		}
+	}
+	for k := range after {
+		if _, ok := before[k]; !ok && !isTableCounter(k) {
+			added[k] = true
+		}
+	}
+	rec.Removed, rec.Added = sortedHex(removed), sortedHex(added)
+	sort.Strings(rec.Changed)
+	for _, o := range e.order {
+		got := e.logical(o)
+		if o == c {
+			if want := e.expectLogical(c, rest); got != want {
+				rec.Logical = append(rec.Logical, fmt.Sprintf("after %s on %s it reads %s, want %s", rec.Op, c, got, want))
+			}
+		} else if got != logBefore[o] {
+			rec.Logical = append(rec.Logical, fmt.Sprintf("other collection %s changed from %s to %s by %s on %s", o, logBefore[o], got, rec.Op, c))
+		}
+	}
+	for m := range sel {
+		for k := range e.mowned[c][m] {
+			delete(e.owned[c], k)
+		}
+		delete(e.mowned[c], m)
+		delete(e.score[c], m)
+	}
+	e.alive[c] = rest
+	emit(*rec)
+	return true
 }
 
 // rejectedWrite: a multi-member write on c whose LAST member is over the size limit must fail as a whole and
